@@ -662,6 +662,8 @@ func wireSequenceFrame(w *World, r *Report, prop string, elems map[string]bool) 
 // that hands shared storage to a writing callee is reported at the callee's own write.
 var (
 	frameWire     = regexp.MustCompile(`\b(Field\.(Attr|IsRepeat|LenAttr|Name)|[A-Za-z]*FieldAttribute\.[A-Za-z]+|LengthOfAttribute\.[A-Za-z]+|Padding\.[A-Za-z]+|Configuration\.[A-Za-z]+|MatchPair\.[A-Za-z]+|Packet\.(Fields|LengthField|MatchFields|FieldMap|Name)|BinaryModel\.Config)\b`)
+	// framePadding: what decides the spelling of a literal in the emitted programs (pad characters, option values)
+	framePadding  = regexp.MustCompile(`\bPadding\.[A-Za-z]+\b|\bConfiguration\.[A-Za-z]+\b|\bFixedStringFieldAttribute\.[A-Za-z]+\b`)
 	framePackets  = regexp.MustCompile(`\bBinaryModel\.(Packets|PacketsMap|RootPacket|MetaDataMap)\b|\bPacket\.(IsRoot|Fields|Name)\b|\bField\.Attr\b`)
 	frameLength   = regexp.MustCompile(`Length|LenAttr|\bField\.Attr\b|\bPacket\.Fields\b`)
 	frameMatch    = regexp.MustCompile(`Match|\bField\.Attr\b`)
